@@ -29,7 +29,9 @@ def classify(msg):
     m = msg.lower()
     if "postcondition not satisfied" in m:
         return "postcondition"
-    if "precondition not satisfied" in m:
+    if "index in bounds" in m or "index out of bounds" in m:
+        return "bounds"
+    if "precondition not satisfied" in m or "precondition not met" in m:
         return "precondition"
     if "arithmetic underflow/overflow" in m or "overflow" in m and "possible" in m:
         return "overflow"
